@@ -157,26 +157,37 @@ pub trait Recognizer {
     spec fn stack(&self) -> Seq<u8>;
     spec fn ok(&self, s: Seq<u8>) -> bool;
     spec fn started_ok(&self, s: Seq<u8>) -> bool;
+    /// no walk in progress (the state trie_finished leaves behind)
+    spec fn fresh(&self) -> bool;
+    /// representation invariant of the implementor (e.g. FixedRecognizer: bytes_ptr <= |bytes|)
+    spec fn rinv(&self) -> bool;
 
     fn pop_bytes(&mut self, num: usize)
-        requires num <= old(self).stack().len(),
-        ensures final(self).stack() == old(self).stack().take(old(self).stack().len() - num),
+        requires num <= old(self).stack().len(), old(self).rinv(),
+        ensures final(self).rinv(), final(self).stack() == old(self).stack().take(old(self).stack().len() - num),
             forall|s: Seq<u8>| final(self).ok(s) == old(self).ok(s);
 
     fn try_push_byte(&mut self, byte: u8) -> (r: bool)
-        ensures r == old(self).ok(old(self).stack().push(byte)),
+        requires old(self).rinv(), old(self).ok(old(self).stack()),
+        ensures final(self).rinv(), r == old(self).ok(old(self).stack().push(byte)),
             final(self).stack() == (if r { old(self).stack().push(byte) } else { old(self).stack() }),
             forall|s: Seq<u8>| final(self).ok(s) == old(self).ok(s);
 
     fn trie_started(&mut self, _dbg_lbl: &str)
-        ensures final(self).stack() == Seq::<u8>::empty(),
+        requires old(self).fresh(), old(self).rinv(),
+        ensures final(self).rinv(), final(self).stack() == Seq::<u8>::empty(),
             forall|s: Seq<u8>| final(self).ok(s) == old(self).started_ok(s),
             final(self).ok(Seq::<u8>::empty()),
             forall|s: Seq<u8>, b: u8| final(self).ok(#[trigger] s.push(b)) ==> final(self).ok(s);
 
-    fn trie_finished(&mut self);
+    fn trie_finished(&mut self)
+        requires old(self).rinv(),
+        ensures final(self).rinv(), old(self).stack().len() == 0 ==> final(self).fresh(),
+            forall|s: Seq<u8>| final(self).started_ok(s) == old(self).started_ok(s);
 
-    fn save_stats(&mut self, _nodes_walked: usize);
+    fn save_stats(&mut self, _nodes_walked: usize)
+        ensures final(self).rinv() == old(self).rinv(), final(self).fresh() == old(self).fresh(),
+            forall|s: Seq<u8>| final(self).started_ok(s) == old(self).started_ok(s);
 }
 //@@ sigcheck toktrie/src/toktree.rs trait@Recognizer::pop_bytes :: fn pop_bytes(&mut self, num: usize)
 //@@ sigcheck toktrie/src/toktree.rs trait@Recognizer::try_push_byte :: fn try_push_byte(&mut self, byte: u8) -> bool
@@ -216,6 +227,33 @@ pub open spec fn acc<R: Recognizer + ?Sized>(nodes: Seq<TrieNode>, d: Seq<nat>, 
     exists|j: int| off < j < p && #[trigger] tokv(nodes[j], vocab) == t && r.ok(s0 + rel(nodes, d, off, j))
 }
 
+/// same as `acc`, over the acceptance function that `trie_started` will install
+pub open spec fn accs<R: Recognizer + ?Sized>(nodes: Seq<TrieNode>, d: Seq<nat>, r: &R, s0: Seq<u8>, off: int, p: int, vocab: u32, t: int) -> bool {
+    exists|j: int| off < j < p && #[trigger] tokv(nodes[j], vocab) == t && r.started_ok(s0 + rel(nodes, d, off, j))
+}
+
+pub proof fn lemma_acc_accs<R: Recognizer + ?Sized>(nodes: Seq<TrieNode>, d: Seq<nat>, r1: &R, r0: &R, s0: Seq<u8>, off: int, p: int, vocab: u32, t: int)
+    requires forall|s: Seq<u8>| r1.ok(s) == r0.started_ok(s),
+    ensures acc(nodes, d, r1, s0, off, p, vocab, t) == accs(nodes, d, r0, s0, off, p, vocab, t),
+{
+    if acc(nodes, d, r1, s0, off, p, vocab, t) {
+        let j = choose|j: int| off < j < p && #[trigger] tokv(nodes[j], vocab) == t && r1.ok(s0 + rel(nodes, d, off, j));
+        assert(off < j < p && tokv(nodes[j], vocab) == t && r0.started_ok(s0 + rel(nodes, d, off, j)));
+    }
+    if accs(nodes, d, r0, s0, off, p, vocab, t) {
+        let j = choose|j: int| off < j < p && #[trigger] tokv(nodes[j], vocab) == t && r0.started_ok(s0 + rel(nodes, d, off, j));
+        assert(off < j < p && tokv(nodes[j], vocab) == t && r1.ok(s0 + rel(nodes, d, off, j)));
+    }
+}
+
+pub proof fn lemma_is_prefix_closed(a: Seq<u8>, b: u8, c: Seq<u8>)
+    requires TokTrie::is_prefix(a.push(b), c),
+    ensures TokTrie::is_prefix(a, c),
+{
+    assert(c.take(a.len() as int) =~= c.take(a.len() as int + 1).take(a.len() as int));
+    assert(a.push(b).take(a.len() as int) =~= a);
+}
+
 impl TokTrie {
     pub open spec fn vocab(&self) -> u32 { self.info.vocab_size }
     pub open spec fn wf(&self) -> bool { exists|d: Seq<nat>| trie_wf(self.nodes@, d, self.vocab()) }
@@ -245,6 +283,7 @@ impl TokTrie {
 //@ spec
     requires
         self.wf(),
+        old(r).rinv(),
         prefix_closed(old(r)),
         old(r).ok(old(r).stack()),
         // room for the fake token at index vocab_size (alloc_token_set allocates vocab_size + 1 bits)
@@ -256,6 +295,7 @@ impl TokTrie {
             || acc(self.nodes@, self.depths(), old(r), old(r).stack(), self.spec_node_offset(n), self.spec_node_offset(n) + nsize(*n), self.vocab(), t)),
         // the recognizer is the same acceptor, and popping next_pop leaves the stack where the walk found it (for the root)
         forall|s: Seq<u8>| final(r).ok(s) == old(r).ok(s),
+        final(r).rinv(),
         self.spec_node_offset(n) == 0 ==> res.0 <= final(r).stack().len(),
         self.spec_node_offset(n) == 0 ==> final(r).stack().take(final(r).stack().len() - res.0) == old(r).stack(),
         res.1 <= nsize(*n),
@@ -288,6 +328,7 @@ impl TokTrie {
             off < nd.len(), endp == off + nsize(nd[off as int]), endp <= nd.len(), total_nodes == nsize(nd[off as int]),
             nodes@ == nd.take(endp as int),
             off + 1 <= p <= endp, defl_tok == vocab,
+            r.rinv(), r.ok(r.stack()),
             prefix_closed(r), forall|s: Seq<u8>| r.ok(s) == old(r).ok(s), old(r).ok(s0),
             s0 == old(r).stack(),
             (p < endp || off == 0) ==> next_pop <= r.stack().len(),
@@ -414,6 +455,183 @@ impl TokTrie {
                     }
                 }
 //@ end
+
+    pub open spec fn is_prefix(a: Seq<u8>, b: Seq<u8>) -> bool { a.len() <= b.len() && b.take(a.len() as int) =~= a }
+
+    /// ASSUMED lookup semantics: index of the node that child_at_bytes(root, start) returns (None if there is none).
+    /// That this is the node whose subtree holds exactly the tokens extending `start` is the builder/lookup assumption
+    /// (checked on symbolic well-formed tries by the Kani unit trie_k, bounded).
+    pub uninterp spec fn spec_child(&self, start: Seq<u8>) -> Option<int>;
+
+//@@ fn toktrie/src/toktree.rs TokTrie::root
+//@ ret r
+//@ spec
+    requires self.nodes@.len() >= 1,
+    ensures *r == self.nodes@[0], self.spec_node_offset(r) == 0,
+//@ body_start
+    proof { admit_root_offset(self); }
+//@ end
+
+    #[verifier::external_body]
+    pub fn child_at_bytes<'a>(&'a self, n: &'a TrieNode, bytes: &[u8]) -> (r: Option<&'a TrieNode>)
+        requires self.wf(), self.spec_node_offset(n) == 0,
+        ensures
+            match r {
+                None => self.spec_child(bytes@) is None,
+                Some(c) => self.spec_child(bytes@) == Some(self.spec_node_offset(c))
+                    && 0 <= self.spec_node_offset(c) < self.nodes@.len()
+                    && self.nodes@[self.spec_node_offset(c)] == *c,
+            },
+            bytes@.len() == 0 ==> self.spec_child(bytes@) == Some(0int),
+    {
+        unimplemented!()
+    }
+//@@ sigcheck toktrie/src/toktree.rs TokTrie::child_at_bytes :: pub fn child_at_bytes<'a>(&'a self, mut n: &'a TrieNode, bytes: &[u8]) -> Option<&'a TrieNode>
+
+    /// t is a token (node j > 0) whose whole byte string is a prefix of `start`
+    pub open spec fn prefix_tok(&self, start: Seq<u8>, t: int) -> bool {
+        exists|j: int| 0 < j < self.nodes@.len() && #[trigger] tokv(self.nodes@[j], self.vocab()) == t
+            && Self::is_prefix(path(self.nodes@, self.depths(), j), start)
+    }
+
+//@@ fn toktrie/src/toktree.rs TokTrie::add_bias
+//@ spec
+    requires
+        self.wf(), old(r).fresh(), old(r).rinv(),
+        (self.vocab() >> 5) < old(toks).nwords(), old(toks).nwords() * 32 <= usize::MAX,
+    ensures
+        final(toks).size == old(toks).size, final(toks).nwords() == old(toks).nwords(),
+        // no id at or above the vocabulary size is ever reported
+        !final(toks).has(self.vocab() as int),
+        // every other id: set iff it was set, or it is a token that is a prefix of `start`, or it is a token below the
+        // node of `start` whose remaining bytes the recognizer accepts one after another
+        forall|t: int| t != self.vocab() ==> (#[trigger] final(toks).has(t) == (old(toks).has(t)
+            || (start@.len() > 0 && self.prefix_tok(start@, t))
+            || match self.spec_child(start@) {
+                   Some(k) => accs(self.nodes@, self.depths(), old(r), Seq::<u8>::empty(), k, k + nsize(self.nodes@[k]), self.vocab(), t),
+                   None => false,
+               })),
+        // the same, spelled out for the empty start (root walk)
+        start@.len() == 0 ==> forall|t: int| t != self.vocab() ==> (#[trigger] final(toks).has(t) == (old(toks).has(t)
+            || accs(self.nodes@, self.depths(), old(r), Seq::<u8>::empty(), 0, nsize(self.nodes@[0]) as int, self.vocab(), t))),
+        final(r).rinv(),
+        start@.len() == 0 ==> final(r).fresh(),
+    decreases start@.len(),
+//@ body_start
+    let ghost d = self.depths();
+    let ghost nd = self.nodes@;
+    let ghost vocab = self.vocab();
+    let ghost t0 = *toks;
+    proof {
+        assert(trie_wf(nd, d, vocab));
+        assert(vocab >> 5 == vocab / 32) by (bit_vector);
+    }
+//@ then_end if !start.is_empty()
+    proof {
+        // what the FixedRecognizer pass added = tokens that are prefixes of `start`
+        let e = Seq::<u8>::empty();
+        axiom_spec_child_empty(self);
+        assert(self.spec_child(e) == Some(0int));
+        assert(nsize(nd[0]) == nd.len());
+        assert forall|t: int| t != vocab implies (#[trigger] toks.has(t) == (t0.has(t) || self.prefix_tok(start@, t))) by {
+            if accs(nd, d, &fixed0, e, 0, nsize(nd[0]) as int, vocab, t) {
+                let j = choose|j: int| 0 < j < nsize(nd[0]) as int && #[trigger] tokv(nd[j], vocab) == t && fixed0.started_ok(e + rel(nd, d, 0, j));
+                assert(e + rel(nd, d, 0, j) =~= path(nd, d, j));
+                assert(self.prefix_tok(start@, t));
+            }
+            if self.prefix_tok(start@, t) {
+                let j = choose|j: int| 0 < j < nd.len() && #[trigger] tokv(nd[j], vocab) == t && Self::is_prefix(path(nd, d, j), start@);
+                assert(e + rel(nd, d, 0, j) =~= path(nd, d, j));
+                assert(accs(nd, d, &fixed0, e, 0, nsize(nd[0]) as int, vocab, t));
+            }
+        }
+    }
+//@ before self.add_bias(&mut fixed, toks, &[]);
+    let ghost fixed0 = fixed;
+    proof { assert(fixed0.bytes@ =~= start@); }
+//@ before let n = self.child_at_bytes(self.root(), start);
+    let ghost t1 = *toks;
+    proof {
+        assert(!start.is_empty() ==> !t1.has(vocab as int));
+        assert forall|t: int| t != vocab implies (#[trigger] t1.has(t) == (t0.has(t) || (start@.len() > 0 && self.prefix_tok(start@, t)))) by { }
+    }
+//@ before r.trie_started("add_bias");
+    let ghost k0 = self.spec_node_offset(n);
+    let ghost r0 = *old(r);
+//@ after r.trie_started("add_bias");
+    let ghost r1 = *r;
+//@ before r.trie_finished();
+    let ghost t2 = *toks;
+    proof {
+        assert forall|t: int| t2.has(t) == (t1.has(t) || accs(nd, d, old(r), Seq::<u8>::empty(), k0, k0 + nsize(nd[k0]), vocab, t)) by {
+            lemma_acc_accs(nd, d, &r1, old(r), Seq::<u8>::empty(), k0, k0 + nsize(nd[k0]), vocab, t);
+        }
+    }
+//@ end
+}
+
+//@@ struct toktrie/src/toktree.rs FixedRecognizer
+
+// assumed std spec (trusted): <[u8]>::to_vec copies the slice
+pub assume_specification<T: Clone> [<[T]>::to_vec] (s: &[T]) -> (r: Vec<T>)
+    ensures r@.len() == s@.len(), forall|i: int| 0 <= i < s@.len() ==> cloned(s@[i], #[trigger] r@[i]);
+
+impl FixedRecognizer {
+//@@ fn toktrie/src/toktree.rs FixedRecognizer::new
+//@ ret r
+//@ spec
+    ensures r.bytes@ == bytes@, r.bytes_ptr == 0,
+//@ end
+}
+
+impl Recognizer for FixedRecognizer {
+    open spec fn stack(&self) -> Seq<u8> { self.bytes@.take(self.bytes_ptr as int) }
+    open spec fn ok(&self, s: Seq<u8>) -> bool { TokTrie::is_prefix(s, self.bytes@) }
+    open spec fn started_ok(&self, s: Seq<u8>) -> bool { TokTrie::is_prefix(s, self.bytes@) }
+    open spec fn fresh(&self) -> bool { self.bytes_ptr == 0 }
+    open spec fn rinv(&self) -> bool { self.bytes_ptr <= self.bytes@.len() }
+
+//@@ fn toktrie/src/toktree.rs Recognizer@FixedRecognizer::pop_bytes
+//@ end
+//@@ fn toktrie/src/toktree.rs Recognizer@FixedRecognizer::try_push_byte
+//@ body_start
+    let ghost st = self.stack();
+    let ghost bs = self.bytes@;
+    proof {
+        assert(st.len() == self.bytes_ptr);
+        if TokTrie::is_prefix(st.push(byte), bs) {
+            assert(bs.take(st.len() as int + 1)[st.len() as int] == st.push(byte)[st.len() as int]);
+        }
+        if self.bytes_ptr < bs.len() && bs[self.bytes_ptr as int] == byte {
+            assert(bs.take(self.bytes_ptr + 1) =~= st.push(byte));
+        }
+    }
+//@ end
+//@@ fn toktrie/src/toktree.rs Recognizer@FixedRecognizer::trie_finished
+//@ end
+//@@ fn toktrie/src/toktree.rs trait@Recognizer::trie_started
+//@ body_start
+    proof {
+        assert(self.bytes@.take(0) =~= Seq::<u8>::empty());
+        assert forall|s: Seq<u8>, b: u8| self.ok(#[trigger] s.push(b)) implies self.ok(s) by {
+            lemma_is_prefix_closed(s, b, self.bytes@);
+        }
+    }
+//@ end
+//@@ fn toktrie/src/toktree.rs trait@Recognizer::save_stats
+//@ end
+}
+
+pub proof fn axiom_spec_child_empty(t: &TokTrie)
+    ensures t.spec_child(Seq::<u8>::empty()) == Some(0int),
+{
+    admit(); // ASSUMED: child_at_bytes(root, []) returns the root (its loop body never runs)
+}
+
+pub proof fn admit_root_offset(t: &TokTrie)
+    ensures t.nodes@.len() >= 1 ==> t.spec_node_offset(&t.nodes@[0]) == 0,
+{
+    admit(); // ASSUMED: node_offset(root) == 0 (pointer identity of &self.nodes[0])
 }
 
 } // verus!
